@@ -17,7 +17,7 @@ RULE = ("2D SEG-Y sections (no il/xl numbering, single inline, single crossline)
 
 
 def write_side(ctx, rng, k):
-    n, bs, q = gen.geometry_2d(rng, max_voxels=60_000 if ctx.quick else 250_000)
+    n, bs, q = gen.geometry_2d(rng, max_voxels=ctx.n(60_000, 250_000))
     n = (1, max(n[1], 2), max(n[2], 2))
     style = ['plain', 'single-il', 'single-xl'][k % 3]
     arr = gen.cube(rng, n)
@@ -90,15 +90,15 @@ def run(ctx):
     from . import c03 as _c03
     _c03.MODEL['m'] = model
     try:
-        for k in range(40 if ctx.quick else 1000):
+        for k in range(ctx.n(40, 1000)):
             write_side(ctx, rng, k)
         # K: 2D producer placement + hash feed under the symbolic compressor vs Model/Writer (cells2d, hashFeed2d)
-        for k in range(30 if ctx.quick else 600):
+        for k in range(ctx.n(30, 600)):
             n, bs, q = gen.geometry_2d(rng, max_voxels=40_000)
             n = (1, max(n[1], 2), max(n[2], 2))
             ctx.case(('writer2d', n, bs, q))
             writercorr.check(ctx, model, n, bs, q, 'segy')
-        for fi in files.read_files(ctx, rng, 30 if ctx.quick else 500, kinds=('2d',), max_voxels=60_000):
+        for fi in files.read_files(ctx, rng, ctx.n(30, 500), kinds=('2d',), max_voxels=60_000):
             s = readcheck.ReadSession(fi)
             try:
                 ops = readcheck.in_range_ops(rng, fi, 6) + readcheck.out_of_range_ops(rng, fi, 1)
